@@ -2,7 +2,7 @@
 From Coq Require Import String Ascii.
 From Cel.Model Require Import Surface.
 From Cel.Proofs Require Export ParserUnfold.
-From Cel.Proofs Require Import NumericProofs.
+From Cel.Proofs Require Import NumericProofs CompareProofs.
 From Coq Require Import Lia Arith.
 Open Scope nat_scope.
 
@@ -281,7 +281,7 @@ Qed.
 (** heads: a rendering starts with a token that starts a primary, or a prefix operator *)
 Definition prim_start (t : tk) : bool :=
   match t with
-  | TIdent _ | TInt _ | TUint _ | TTrue | TFalse | TNull | TLParen | TLBracket | TLBrace => true
+  | TIdent _ | TInt _ | TUint _ | TString _ | TBytes _ | TTrue | TFalse | TNull | TLParen | TLBracket | TLBrace => true
   | _ => false
   end.
 Definition hd_prim (ts : list tk) : Prop := match ts with t :: _ => prim_start t = true | [] => False end.
@@ -294,7 +294,7 @@ Proof. destruct a; [contradiction|exact (fun H => H)]. Qed.
 Lemma hd_prim_expr a : hd_prim a -> hd_expr a.
 Proof. destruct a; [contradiction|]. cbn. auto. Qed.
 Lemma lit_tk_start l : prim_start (lit_tk l) = true.
-Proof. destruct l as [z|z|[]|]; reflexivity. Qed.
+Proof. destruct l as [z|z|[]| |t s|t b]; reflexivity. Qed.
 
 Lemma tk7_prim t : hd_prim (tk_at 7 t).
 Proof.
@@ -702,11 +702,15 @@ Proof.
     exists (S (S n)). intros [|[|f]] Hf; try lia. rewrite (tk_raw 7 (SLit l)) by (cbn; lia). cbn [raw app].
     rewrite u_member.
     assert (E : p_primary (S f) (lit_tk l :: R) = POk (ELit (lit_val l)) R).
-    { rewrite u_primary. destruct l as [z|z|[]|]; cbn [lit_tk lit_val wf_lit] in *; try reflexivity.
+    { rewrite u_primary. destruct l as [z|z|[]| |t s|t b]; cbn [lit_tk lit_val wf_lit] in *; try reflexivity.
       - apply andb_prop in W as [W0 W1]. cbn [literal_of].
         pose proof (int_literal_dec z W1) as E. replace (z <? 0)%Z with false in E by lia.
         replace (Z.abs z) with z in E by lia. now rewrite E.
-      - cbn [literal_of]. now rewrite (uint_literal_dec z (ch "u") W). }
+      - cbn [literal_of]. now rewrite (uint_literal_dec z (ch "u") W).
+      - cbn [literal_of]. destruct (decode_string t) as [s'|]; [|discriminate].
+        apply str_eqb_eq in W. now subst s'.
+      - cbn [literal_of]. destruct (decode_bytes t) as [b'|]; [|discriminate].
+        apply str_eqb_eq in W. now subst b'. }
     rewrite E. apply H. lia.
   - (* field selection *)
     destruct (IHt W) as (_ & _ & _ & _ & Ka).
